@@ -1250,6 +1250,7 @@ func exchangeServiceInfo(ctx context.Context,
 		// exchanged, we can still yield to the appropriate device module.
 		moduleName := make(chan string)
 		go func() {
+			simYield("to2.moduleHandler.start")
 			select {
 			case <-ctx.Done():
 			case moduleName <- handleOwnerModuleMessages(ctxWithMTU, prevModuleName, modules, ownerInfo, deviceInfoIn):
@@ -1294,12 +1295,14 @@ func exchangeServiceInfo(ctx context.Context,
 		// TODO: Wait a few seconds if no service info was sent or received in
 		// the last round.
 
+		simYield("to2.moduleHandler.wait")
 		select {
 		case <-ctx.Done():
 			return ctx.Err()
 		case prevModuleName = <-moduleName:
 			ownerInfo = nextOwnerInfo
 		}
+		simYield("to2.moduleHandler.joined")
 	}
 }
 
